@@ -229,6 +229,8 @@ def gen_cases(rng, n):
             if rng.random() < 0.3:
                 p['District Heating O&M Cost'] = rng.choice([0.1, 1])
             p['District Heating Piping Cost Rate'] = rng.choice([700, 1200])
+        if rng.random() < 0.5:
+            geo.diversify(rng, p)
         cases.append((f'grid:{econ}/{eu}/{pl}#{k}', p))
     # closed-loop runs under the classical economic models (AGSEconomics delegates to Economics.Calculate)
     for k in range(max(6, n // 25)):
